@@ -35,7 +35,8 @@ CLAIMED = {
         engine="meta", design_ref="6.19",
         technique="Lean 4 proof (index-based model of encoding.rs refined to the WHATWG extraction algorithm written as "
                   "the standard's loop, by induction on loop fuel / remaining length) + model/code correspondence through "
-                  "the real public API; firing rule checked by an oracle on the real tokenizer + tree builder",
+                  "the real public API; firing rule proved for the tree-builder model over all 21 insertion modes + oracle on the "
+                  "real tokenizer + tree builder",
         text="Extraction is a theorem: for ALL byte strings the model of encoding.rs "
              "(extract_a_character_encoding_from_a_meta_element: byte offsets, `?` early returns, every slice index / "
              "usize subtraction / subtendril as a panic branch, both loops on fuel) returns exactly what the WHATWG "
@@ -43,17 +44,23 @@ CLAIMED = {
              "perform the final 'get an encoding' lookup) and never panics; the model is tied to the code by feeding "
              "`<meta http-equiv=content-type content=…>` to the real Tokenizer+TreeBuilder+RcDom and comparing the label "
              "of the EncodingIndicator returned by feed() on a grammar-exhaustive set of content strings. "
-             "The clause 'feed() suspends exactly once per meta start tag inserted as an HTML meta element with charset "
-             "or http-equiv=content-type + extractable content, the element is already in the tree, resuming continues as "
-             "if nothing had happened' is NOT a theorem yet (tree-builder model is a separate work package): it is carried "
-             "by an oracle on the real code — indicators vs qualifying HTML meta elements of the final tree, for meta / "
+             "THE FIRING RULE is a theorem about the tree-builder model (Props/C19Fire.lean): C19_in_head_meta - the in-head "
+             "rule on a meta start tag answers EncodingIndicator(l) iff the tag qualifies with label l (charset attribute, else "
+             "http-equiv = content-type + extractable content; the charset attribute wins: C19_charset_wins), the element "
+             "having been created, inserted and popped and nothing else of the builder changed; C19_only_meta_fires - for "
+             "every state, insertion mode and token an indicator is answered ONLY for such a meta start tag (not link / base / "
+             "other elements' attributes; all 21 modes and foreign content); C19_meta_routing - in which modes a meta start tag "
+             "reaches that rule (in head, in head noscript, after head, in body, in template, in caption, in cell, the table "
+             "modes via foster-parented in-body, in column group; reprocessed in initial / before html / before head / after "
+             "body / after after body / in table text; ignored in the frameset modes; break-out in foreign content); "
+             "C19_at_most_once - a token list produces at most one indicator per qualifying meta. On the real code the clause "
+             "is additionally checked by an oracle — indicators vs qualifying HTML meta elements of the final tree, for meta / "
              "link / base / basefont / bgsound variants in every insertion-mode context and fragment context, every "
              "split position, and tree + parse-error equality with the same document with the attributes neutralised.",
         note="Trusted: Lean kernel; Spec.MetaExtract (my transcription of the standard's algorithm, cross-checked each run "
              "against an independent Python transcription); byte-level reading of an algorithm that only inspects ASCII; "
              "the hand-written model + the meta correspondence. StrTendril::subtendril's UTF-8 boundary check is not "
-             "modelled (cuts are adjacent to ASCII bytes). Firing rule: differential/oracle evidence only, to be joined by "
-             "a tree-builder theorem (C02/C05 work package)."),
+             "modelled (cuts are adjacent to ASCII bytes; C19_in_head_meta_total carries it as the hypothesis MetaDecodes)."),
     "C10": dict(
         engine="utf8", design_ref="6.10",
         technique="Lean 4 proof (streaming invariant relating the pending incomplete prefix to the unread suffix; "
@@ -306,7 +313,15 @@ CLAIMED["C17"] = dict(
          "with a blank ...). The hypothesis is needed: three PARSER-PRODUCED trees violate it and do not round-trip "
          "(C17_witness_attr_leading_colon `<r a :b='1'/>`, C17_witness_prefix_eq `<=a:b/>`, C17_witness_pi_blank `<?t? x?>`; "
          "confirmed on the real code; KNOWN FINDINGS C17-lex-colon / -eq / -pi: the error-tolerant XML5 tokenizer accepts "
-         "names no XML text can spell; recorded, not repaired). Partial: that every tree the parser builds has parser-produced tags / parsed shape "
+         "names no XML text can spell; recorded, not repaired). EVERY PARSED DOCUMENT IS IN THE CLASS (Props/C17Shape.lean): "
+         "C17_parsed_shape / C17_roundtrip_parsed - for every token list of tokenizer shape the tree-builder model's document "
+         "satisfies all hypotheses of the round-trip theorem (class widened to treesOKW: the original `consistent` clause "
+         "wrongly excluded an element in a default namespace with an unprefixed attribute, C17_witness_class_gap), rootless "
+         "and empty documents included; C17_tok_always + C17_tok_lex_or_corner - every token the tokenizer model ever emits "
+         "satisfies the lexical class or is a Corner token (an '=' in a name prefix, an attribute name starting with ':', PI "
+         "data starting with a blank - the three known findings and one variant, C17_witness_attr_prefix_eq; no fourth kind); "
+         "C17_roundtrip_source - for EVERY input text whose token stream contains no Corner token: tokenize, build, "
+         "serialize, tokenize (any chunking/options), build = the same document. Formerly partial: that every tree the parser builds has parser-produced tags / parsed shape "
          "(treesOK, nodesOK) is not proved as one theorem (it follows the C16 statements: one scope per tag, duplicates "
          "removed, declarations consumed) - the src-mode oracle (parse, serialize, parse) covers it on the real code.",
     note="Trusted: Lean kernel; lean/H5V/Model/XmlSer.lean, XmlTok.lean, XmlTB.lean + their correspondences; `lexEv` (names "
@@ -325,10 +340,16 @@ CLAIMED["C05"] = dict(
     text="That the tree builders only issue calls satisfying the documented TreeSink contract "
          "(`H5V.Model.Dom.Contract`: element-only operations get elements, appended nodes are parentless, nothing is "
          "inserted under itself or a descendant, insert-before siblings are non-text nodes with a parent, at most one "
-         "doctype and before any element, no attribute list with a repeated name) is DECIDED BY THE CONTRACT MONITOR on "
-         "the real parsers for the inputs of each run, and cross-checked by the model-side replay of every trace "
-         "(per-call verdicts, call results and final DOM dumps identical) - it is not proved for all inputs, the "
-         "tree-builder models being a separate package. PROVED (Lean kernel) is the DOM side: the contract is "
+         "doctype and before any element, no attribute list with a repeated name) is PROVED for the HTML tree-builder model "
+         "(Props/C05TB.lean, C05_tb_contract / _fragment; ~10k lines): for EVERY token list whose tags carry no duplicate "
+         "attribute names (what the tokenizer guarantees), every option set, document start and fragment start with any "
+         "context element, every one of the builder's sink calls - all queries, create_*, every append variant, foster "
+         "parenting (append_based_on_parent_node / append_before_sibling), reparent_children, the frameset remove_from_parent, "
+         "and the adoption agency's remove_from_parent + re-insertion of last_node (no cycle: a stack-order vs DOM-ancestry "
+         "invariant) - satisfies the contract at the moment it is made, and the DOM invariant of C20 holds at the end; the "
+         "XML builder's model is a zipper whose calls are contract-abiding by construction. On the real parsers the same is "
+         "decided by the CONTRACT MONITOR for the inputs of each run and cross-checked by the model-side replay of every trace "
+         "(per-call verdicts, call results and final DOM dumps identical). PROVED on the DOM side: the contract is "
          "decidable; a call within it never makes RcDom panic (every TreeSink method except the option->selectedcontent "
          "mirroring; both behaviours of append_before_sibling) and re-establishes the invariant of C20, so a "
          "contract-abiding call sequence runs to its end without a panic (C05_run) and a trace the model-side monitor "
@@ -336,7 +357,8 @@ CLAIMED["C05"] = dict(
          "theorems); duplicate-free attribute lists keep elements duplicate-free.",
     note="Trusted: Lean kernel; my reading of the trait documentation as `Contract`; the monitor's shadow structure "
          "(harness/src/sinkops.rs), tied to `Contract` by replay; the DOM model of C20. Level for the quantifier `all "
-         "inputs`: monitoring (coverage in evidence: parses, calls, op histogram), not proof. C05_no_panic_partial "
+         "inputs`: proof for the model (tied to the code by the tb/rcdom correspondences) + monitoring of the real parsers "
+         "(coverage in evidence: parses, calls, op histogram). C05_no_panic_partial "
          "excludes maybe_clone_an_option_into_selectedcontent (fuel adequacy of three bounded loops and validity of "
          "template-contents links are outside the proved invariant; no such call panics in any case). One defect found "
          "(xml5ever appended a doctype per DOCTYPE token) is repaired in /repo (b61995b); its input stays in corpus/C05.")
@@ -354,9 +376,14 @@ CLAIMED["C18"] = dict(
          "template-contents link, so whatever was connected to a traced handle stays connected (C18_reach_step/_run), "
          "remove_from_parent and reparent_children keep it connected once the two ends of the cut are roots "
          "(C18_reach_remove/_reparent), template contents are connected to their element (C18_reach_template). "
-         "CHECKED AT RUN TIME on the real code, not proved for all inputs: that every handle the tree builders pass to "
-         "the sink after a suspension point was, at that point, connected to a handle reported by the real "
-         "trace_handles - a GC-simulating sink runs a collection at every chunk boundary (all 2-partitions and "
+         "PROVENANCE (Props/C18Reach.lean, for the HTML tree-builder model, every token list, every split into 'before the "
+         "suspension' and 'after'): every handle the builder passes to the sink after the suspension is one of the handles "
+         "held in the traced fields at the suspension (open elements, active formatting list, head / form / context "
+         "element, document) or was returned by the sink since (create_element, create_comment, get_template_contents, "
+         "get_document) - the builder holds handles nowhere else, conjures none, and never obtains one from a DOM query "
+         "(C18_suspension, C18_process_token, C18_answers for Script answers, C18_finish for end()). Together with the "
+         "translator theorem this is the property for the model. CHECKED AT RUN TIME on the real code (HTML and XML): "
+         "a GC-simulating sink runs a collection at every chunk boundary (all 2-partitions and "
          "one-character chunkings of the document families of C05) and at every Script / EncodingIndicator return, "
          "poisons every node not connected to a traced handle, and fails if a poisoned handle is used again; a self-test "
          "(last traced handle dropped) shows the oracle fires.",
@@ -491,9 +518,13 @@ CLAIMED["C04"] = dict(
          "popped, orig_mode set in Text / InTableText, template_modes non-empty under a template, head pointer set after head, "
          "indices into the active formatting list in range, bookmark / furthest block found ...), the helper loops' fuel "
          "suffices, end() is total; the Text-mode unreachable!() (rules.rs:1037) is reachable only by token lists that break "
-         "the tokenizer protocol (C04_tb_protocol_not_text). Not proved: that the builder's tree-MOVING sink calls stay inside "
-         "the TreeSink contract (RcDom's own asserts; C05) and the fuel of the model's reprocess loop; real stack exhaustion, "
-         "allocator aborts and wall-clock time cannot be exhibited by a model. Exercised instead - every tokenizer cover case and stress string (HTML and XML, whole and chunked), "
+         "the tokenizer protocol (C04_tb_protocol_not_text); the fuel of the model's reprocess loop suffices (Props/C04TB2.lean: a "
+         "measure over tables on the stack, template modes and a mode/token-class rank decreases on every Reprocess edge of "
+         "all 21 rules); every sink call is inside the TreeSink contract (Props/C05TB.lean), so RcDom's own asserts are "
+         "unreachable too - C04_tb_total_full': under the tokenizer protocol, for tags without duplicate attribute names, the "
+         "ONLY failures the model can still report are the option->selectedcontent mirror call's own (called within its "
+         "contract; its success needs more than the contract) and the two encoding.rs messages about the slice being UTF-8. "
+         "Real stack exhaustion, allocator aborts and wall-clock time cannot be exhibited by a model. Exercised instead - every tokenizer cover case and stress string (HTML and XML, whole and chunked), "
          "whole-parser runs on pathological documents/fragments/XML (every element class nested 3*10^3 deep in quick, 10^5 deep "
          "and 10^6 long in thorough), every element name x every fragment context, the adoption-agency / Noah's-ark / foster-"
          "parenting / foreign-named-element / CDATA-edge families as documents and fragments, must complete without panic/abort/hang, drain "
